@@ -99,7 +99,6 @@ def siteTable : List (Gen.Site × Disposition × String) := [
   (⟨"expand.rs", "get_ident", "unreachable!(\"19\")"⟩, .modelled, "expand.rs:ApplicableAttr::get_ident:unreachable(19)"),
   (⟨"expand.rs", "get_ident", "unreachable!(\"9\")"⟩, .modelled, "expand.rs:ApplicableAttr::get_ident:unreachable(9)"),
   (⟨"expand.rs", "get_field_name_or", "unreachable!(\"10\")"⟩, .modelled, "expand.rs:ApplicableAttr::get_field_name_or:unreachable(10)"),
-  (⟨"expand.rs", "get_action_or", "unreachable!(\"11\")"⟩, .modelled, "expand.rs:ApplicableAttr::get_action_or:unreachable(11)"),
   (⟨"expand.rs", "get_stuff", "unreachable!(\"12\")"⟩, .modelled, "expand.rs:ApplicableAttr::get_stuff:unreachable(12)"),
   (⟨"expand.rs", "get_stuff", "unwrap(attr)"⟩, .guarded, "`attr.is_some_and(..)` checked in the condition"),
   (⟨"expand.rs", "get_stuff", "unwrap(ghost_attr . action . as_ref ())"⟩, .modelled, "expand.rs:ApplicableAttr::get_stuff:ghost action unwrap")]
@@ -168,5 +167,166 @@ theorem C16_err_ty_sites_unreachable (input : DataType) (ctx : ImplContext)
     have := C15_complete_R3a_validate input k sa hk hsa herr
     rw [hv] at this
     cases this
+
+/-! ### the `Ghost` arms of `get_field_name_or` / `get_ident` (`unreachable!("10")`, `("9")`) -/
+
+/-- the applicable instruction is a ghost exactly when the ghost lookup succeeds -/
+theorem applicableAttr_ghost_iff (a : MemberAttrs) (k : Kind) (fallible : Bool) (ty : TypePath) (g : FieldGhostAttrCore) :
+    a.applicableAttr k fallible ty = some (.ghost g) ↔ a.ghost ty k = some g := by
+  unfold MemberAttrs.applicableAttr
+  cases hg : a.ghost ty k with
+  | some g' => simp [HOrElse.hOrElse, OrElse.orElse, Option.orElse]
+  | none =>
+    simp only [Option.map_none, HOrElse.hOrElse, OrElse.orElse, Option.orElse]
+    constructor
+    · intro h
+      cases hx : ((a.fieldAttrCore k fallible ty).orElse fun _ => if fallible = true then a.fieldAttrCore k false ty else none) with
+      | _ => simp_all [Option.map, Option.orElse] <;> (split at h <;> simp at h)
+    · intro h; cases h
+
+/-- C16 (struct members): a member that takes part in an Into / IntoExisting conversion has no ghost as its
+    applicable instruction — so the `Ghost` arms of `get_field_name_or` (`unreachable!("10")`) and `get_action_or`
+    cannot be entered from `render_struct_line`'s Into / IntoExisting arms -/
+theorem C16_member_not_ghost (ctx : ImplContext) (f : Field) (hk : ctx.kind.isFrom = false) (hs : fieldSkipped ctx f = false)
+    (g : FieldGhostAttrCore) : f.attrs.applicableAttr ctx.kind ctx.fallible ctx.ty ≠ some (.ghost g) := by
+  intro h
+  have hg := (applicableAttr_ghost_iff _ _ _ _ g).mp h
+  simp [fieldSkipped, hk, hg] at hs
+
+/-- C16 (variants, From side): a variant that contributes an arm to a From conversion has no ghost as its applicable
+    instruction — so `render_enum_line`'s From arm never enters the `Ghost` arms of `get_action_or` /
+    `get_field_name_or` -/
+theorem C16_variant_not_ghost_from (ctx : ImplContext) (v : Variant) (hk : ctx.kind.isFrom = true) (hc : variantContributes ctx v = true)
+    (g : FieldGhostAttrCore) : v.attrs.applicableAttr ctx.kind ctx.fallible ctx.ty ≠ some (.ghost g) := by
+  intro h
+  have hg := (applicableAttr_ghost_iff _ _ _ _ g).mp h
+  simp [variantContributes, hk, hg] at hc
+
+/-- the two accessors are total on every instruction that is not a ghost -/
+theorem C16_accessors_total (a : ApplicableAttr) (hng : ∀ g, a ≠ .ghost g) (m : Member) (fp : Option TS) (ctx : ImplContext) (or : TS) :
+    (∃ x, a.getFieldNameOr m = .ok x) ∧ (∃ ts, a.getActionOr fp ctx or = .ok ts) := by
+  cases a with
+  | ghost g => exact absurd rfl (hng g)
+  | field c =>
+    constructor
+    · simp only [ApplicableAttr.getFieldNameOr]; exact ⟨_, rfl⟩
+    · simp only [ApplicableAttr.getActionOr]; split <;> exact ⟨_, rfl⟩
+  | parentChildField pc k =>
+    constructor
+    · simp only [ApplicableAttr.getFieldNameOr]; split <;> exact ⟨_, rfl⟩
+    · simp only [ApplicableAttr.getActionOr]; repeat' split
+      all_goals exact ⟨_, rfl⟩
+
+/-- since fix 597b696 `get_action_or` is total on every instruction -/
+theorem C16_getActionOr_total (a : ApplicableAttr) (fp : Option TS) (ctx : ImplContext) (or : TS) : ∃ ts, a.getActionOr fp ctx or = .ok ts := by
+  cases a <;> simp only [ApplicableAttr.getActionOr] <;> repeat' split
+  all_goals exact ⟨_, rfl⟩
+
+/-! ### `unreachable!("17")`: an index in an enum-level `#[ghosts]` (since fix ebe9216 reported by validation) -/
+
+theorem enumGhostIdentPass_ext (g : GhostData) (es : Errors) (m : String) (hm : m ∈ es) : m ∈ enumGhostIdentPass g es := by
+  unfold enumGhostIdentPass
+  repeat' split
+  all_goals first | exact mem_insert_of_mem _ _ _ hm | exact hm
+
+/-- C16 (site `render_enum_ghost_line:unreachable(17)`): an enum that validation accepts never reaches it — every
+    entry of every enum-level `#[ghosts]` instruction names a variant (or a destructuring pattern), whatever the
+    conversion kind -/
+theorem C16_site_17_unreachable (e : Enum) (hv : validate (.enum e) = []) (ga : GhostsAttr) (hga : ga ∈ e.attrs.ghostsAttrs)
+    (g : GhostData) (hg : g ∈ ga.attr.ghostData) (ctx : ImplContext) :
+    ∃ ts, renderEnumGhostLine g ctx = .ok ts := by
+  cases hid : g.ghostIdent with
+  | destruction d => unfold renderEnumGhostLine; simp only [hid]; split <;> exact ⟨_, rfl⟩
+  | member m =>
+    cases m with
+    | named n => unfold renderEnumGhostLine; simp only [hid]; split <;> exact ⟨_, rfl⟩
+    | unnamed n =>
+      exfalso
+      have hmem : g ∈ (DataType.enum e).attrs.ghostsAttrs.flatMap (fun x => x.attr.ghostData) :=
+        List.mem_flatMap.mpr ⟨ga, hga, hg⟩
+      have : "Enum-level #[ghosts(...)] should name a variant of the other type, not an index." ∈ validate (.enum e) := by
+        unfold validate
+        simp only
+        apply mem_foldl_of_mem _ _ _ _ (fun v es hm => ext_validateVariantFields v _ es _ hm)
+        exact mem_foldl_of_step _ _ _ _ g hmem (fun y es hm => enumGhostIdentPass_ext y es _ hm)
+          (fun es => by unfold enumGhostIdentPass; simp only [hid]; exact mem_insert_self _ _)
+      rw [hv] at this
+      cases this
+
+/-! ### `unreachable!("2")` / `("15")` through `as Unit` on a `#[child_parents]` entry (since fix 978c78a reported) -/
+
+def unitHintMsg : String :=
+  "Type hint 'as Unit' is not supported in #[child_parents(...)]: members are flattened into the nested struct."
+
+theorem childParents_unit_reported (cas : List ChildParentsAttr) (tps : List TypePath) (es : Errors)
+    (ca : ChildParentsAttr) (hca : ca ∈ cas) (cd : ChildParentData) (hcd : cd ∈ ca.childParents) (hu : cd.typeHint = .unit) :
+    unitHintMsg ∈ validateChildParentsAttrs cas tps es := by
+  obtain ⟨pre, post, rfl⟩ := List.append_of_mem hca
+  obtain ⟨pre', post', hcp⟩ := List.append_of_mem hcd
+  unfold validateChildParentsAttrs
+  apply foldl_snd_mem_of_step pre post ca
+  · intro x s es m hm
+    simp only
+    apply ext_foldl_snd x.childParents
+    · intro cd s es m hm
+      simp only
+      have h1 : m ∈ (if s.contains cd.fieldPathStr then es.insert "Ident here must be unique." else es) := by
+        split
+        · exact mem_insert_of_mem _ _ _ hm
+        · exact hm
+      split
+      · exact mem_insert_of_mem _ _ _ h1
+      · exact h1
+    · split
+      · simp only
+        repeat' split
+        all_goals ext_tac
+      · exact hm
+  · intro s es
+    simp only
+    rw [hcp]
+    apply foldl_snd_mem_of_step pre' post' cd
+    · intro cd s es m hm
+      simp only
+      have h1 : m ∈ (if s.contains cd.fieldPathStr then es.insert "Ident here must be unique." else es) := by
+        split
+        · exact mem_insert_of_mem _ _ _ hm
+        · exact hm
+      split
+      · exact mem_insert_of_mem _ _ _ h1
+      · exact h1
+    · intro s es
+      simp only [hu, beq_self_eq_true, ↓reduceIte]
+      exact mem_insert_self _ _
+
+/-- C16 (sites `struct_init_block_inner:unreachable(2)` and `render_child:unreachable(15)` via nested structs): an input
+    that validation accepts has no `#[child_parents]` entry hinted `as Unit`, so no nested struct is ever rendered with
+    the unit shape -/
+theorem C16_child_hint_not_unit (input : DataType) (hv : validate input = [])
+    (ca : ChildParentsAttr) (hca : ca ∈ input.attrs.childParentsAttrs) (cd : ChildParentData) (hcd : cd ∈ ca.childParents) :
+    cd.typeHint ≠ .unit := by
+  intro hu
+  have : unitHintMsg ∈ validate input := by
+    unfold validate
+    simp only
+    have h2 := childParents_unit_reported input.attrs.childParentsAttrs (input.attrs.attrs.map (·.core.ty))
+      (validateKinds.foldl (fun es k => validateGhostAttrs k input.attrs.ghostsAttrs (input.attrs.attrs.map (·.core.ty)) es)
+        (validateKinds.foldl (fun es k => validateStructAttrs (input.attrs.iterForKindCore k true) true es)
+          (validateKinds.foldl (fun es k => validateStructAttrs (input.attrs.iterForKindCore k false) false es)
+            (validateErrorInstrs (match input with | .enum _ => true | .struct _ => false) input.attrs.errorInstrs
+              (if input.attrs.attrs.isEmpty then ["At least one trait instruction is expected."] else [])))))
+      ca hca cd hcd hu
+    have h3 := ext_validateWhereAttrs input.attrs.whereAttrs (input.attrs.attrs.map (·.core.ty)) _ _ h2
+    have h4 := mem_foldl_of_mem input.members
+      (validateMember input (match input with | .enum _ => true | .struct _ => false) (input.attrs.attrs.map (·.core.ty)) (attrsByKind input.attrs)) _ _
+      (fun member es hm => ext_validateMember _ _ _ _ member es _ hm) h3
+    cases input with
+    | struct s => exact ext_validateFields _ _ _ _ _ h4
+    | enum e =>
+      have h5 := mem_foldl_of_mem ((DataType.enum e).attrs.ghostsAttrs.flatMap (fun x => x.attr.ghostData)) (fun es g => enumGhostIdentPass g es) _ _
+        (fun g es hm => enumGhostIdentPass_ext g es _ hm) h4
+      exact mem_foldl_of_mem _ _ _ _ (fun v es hm => ext_validateVariantFields v _ es _ hm) h5
+  rw [hv] at this
+  cases this
 
 end O2o
